@@ -33,7 +33,7 @@ class C07:
                          'sig': 'C07:%s:%s' % (o.kind, o.info.split(':')[0] if o.kind == 'exc' else case[0]),
                          'detail': {'source': src, 'config': cfg, 'info': o.info, 'stderr': o.stderr[-300:]}})
         else:
-            ml = rawspace.CONFIGS[cfg][1]
+            ml = rawspace.config_of(cfg)[1]
             r = o.result
             ok = (isinstance(r, dict) and all(isinstance(p[0], str) and len(p) == 2 for l in r for p in r[l])) if ml else \
                 (isinstance(r, tuple) and len(r) == 2 and isinstance(r[0], str))
